@@ -307,7 +307,11 @@ def get_directory_size_bytes(directory, recursive=True):
     total = 0
     for dirpath, _, filenames in os.walk(directory):
         for filename in filenames:
-            total += os.stat(os.path.join(dirpath, filename)).st_size
+            try:
+                total += os.stat(os.path.join(dirpath, filename)).st_size
+            except FileNotFoundError:
+                # Transient files (lock files, backups) can be removed by other processes.
+                continue
         if not recursive:
             break
 
